@@ -180,11 +180,17 @@ def render_listener(prog, role):
             if prog["cbs"][cbid].get("partial"):
                 pre.append(render_partial_fn(prog, cbid))
                 nm = cbid.split(".", 1)[1]
-                init.append(f"        self.{nm} = functools.partial(_pf_{pyname(prog)}_{role}_{nm}, self)\n")
+                only = prog["cbs"][cbid].get("only_for")
+                line = f"self.{nm} = functools.partial(_pf_{pyname(prog)}_{role}_{nm}, self)\n"
+                if only:
+                    # an instance-level callback that only SOME instances of this class have
+                    init.append(f"        if _tag in {only!r}:\n            {line}")
+                else:
+                    init.append(f"        {line}")
             else:
                 body.append(render_cb(prog, cbid))
     if init:
-        body.insert(0, "    def __init__(self):\n" + "".join(init))
+        body.insert(0, "    _sim_takes_tag = True\n    def __init__(self, _tag=None):\n" + "".join(init))
     if prog.get("listener_eq"):
         # value-based equality: two listener objects of this class compare (and hash) equal
         body.append("    def __eq__(self, other):\n        return type(other) is type(self)\n"
